@@ -75,6 +75,43 @@ def r15_6(chk, facts):
             else: chk.fail('R15.6', site, fn['file'], fn['l'], '~operation_unwinder %s the undo log when state == %s; every state except commit must roll back (after an exception the state is still begin)' % (
                 'replays' if replays else 'does not replay', sname), {'state': sname}, fn['q'])
 
+def r15_7(chk, facts):
+    """The contract apply_patch builds its undo entries on: add_if_absent never overwrites."""
+    chk.rule('R15.7', 'add_if_absent never overwrites: the worker of jsonpointer::add_if_absent contains no assignment to the document or to the '
+                      'node it resolved and no insert_or_assign / operator[]; an object member is added with try_emplace after a contains() '
+                      'test that stores key_already_exists.  apply_patch logs `remove` after a successful add_if_absent, which undoes the '
+                      'operation only if nothing was overwritten (the whole document, path "", is never absent)', floor=2)
+    fns = [f for f in facts.functions if f['n'] == 'add_if_absent' and f['file'].endswith('jsonpointer.hpp') and not f.get('dep') and f.get('body') is not None
+           and len(f['params']) == 5 and 'basic_json_pointer' in f['_types'][f['params'][1]['t'] - 1]]
+    chk.require(fns, 'jsonpointer::add_if_absent(root, pointer, value, create_if_missing, ec) not instantiated')
+    for fn in U.one_per_inst(fns):
+        chk.analysed(fn)
+        root = fn['params'][0]['id']
+        jsonptr_locals = set(d['id'] for d in A.walk_no_lambda(fn['body']) if d.get('k') == 'VarDecl' and fn['_types'][d['t'] - 1].rstrip().endswith('*') and 'basic_json' in fn['_types'][d['t'] - 1]) if True else set()
+        bad = []
+        for x in A.walk_no_lambda(fn['body']):
+            tgt = None
+            if x.get('k') == 'BinaryOperator' and x.get('op') == '=': tgt = A.strip(x.get('lhs'), casts=True)
+            if x.get('k') == 'CXXOperatorCallExpr' and x.get('oop') == '=' and x.get('args'): tgt = A.strip(x['args'][0], casts=True)
+            if tgt is not None:
+                if tgt.get('k') == 'DeclRefExpr' and tgt.get('id') == root: bad.append((x.get('l'), 'assigns to the document'))
+                if tgt.get('k') == 'UnaryOperator' and tgt.get('op') == '*' and (A.strip(tgt.get('sub'), casts=True) or {}).get('id') in jsonptr_locals:
+                    bad.append((x.get('l'), 'assigns through the resolved node pointer'))
+            if x.get('k') in A.CALLS and A.callee_name(x) in ('insert_or_assign', 'operator[]') and x.get('k') != 'CXXOperatorCallExpr':
+                bad.append((x.get('l'), 'calls %s' % A.callee_name(x)))
+            if x.get('k') == 'CXXOperatorCallExpr' and x.get('oop') == '[]' and 'basic_json' in (x.get('cq') or ''):
+                bad.append((x.get('l'), 'indexes the node with operator[] (creates or overwrites)'))
+        g = C.CFG(fn['body'])
+        emplaces = [nd for nd in g.rpo if nd.kind in ('stmt', 'cond') and isinstance(nd.ast, dict) and any(A.callee_name(c) == 'try_emplace' for c in A.calls_in(nd.ast))]
+        guarded = all(any(lab is False and any(A.callee_name(c) == 'contains' for c in A.calls_in(a)) for a, lab, e in g.guards(nd)) for nd in emplaces)
+        site = U.site(fn, 'no overwrite')
+        if bad: chk.fail('R15.7', site, fn['file'], bad[0][0], 'add_if_absent %s (line %s): a value that is already there is replaced and reported as newly '
+                         'added, so apply_patch logs `remove` for it and a later failure cannot restore it' % (bad[0][1], bad[0][0]), {'sites': bad}, fn['q'])
+        else: chk.ok('R15.7', site, {'function': fn['q']})
+        site = U.site(fn, 'member added under !contains')
+        if emplaces and guarded: chk.ok('R15.7', site, {'try_emplace_sites': len(emplaces)})
+        else: chk.fail('R15.7', site, fn['file'], fn['l'], 'add_if_absent adds an object member %s' % ('outside a `!contains(key)` branch' if emplaces else 'without try_emplace'), None, fn['q'])
+
 def r19_5(chk, facts):
     """Recording the inverse must not be able to fail once the mutation has happened."""
     chk.rule('R19.5', 'undo recording cannot fail: the undo entry that follows a mutation of the target in apply_patch is recorded without '
@@ -233,6 +270,7 @@ def run(chk, tier, only_rule=None):
             if stores and rets: chk.ok('R15.3', site, {'final_else_line': last[1].succ[0].line if last[1].succ else None, 'ops_compared': len(opconds)})
             else: chk.fail('R15.3', site, fn['file'], last[0].line, 'an operation whose "op" matches none of the %d names is skipped without an error (no final else that stores ec and returns)' % len(opconds), None, fn['q'])
     r15_6(chk, facts)
+    r15_7(chk, facts)
     # R15.4
     dts = [f for f in facts.functions if f.get('fk') == 'CXXDestructor' and 'operation_unwinder' in f['q'] and not f.get('dep') and f.get('body') is not None]
     chk.require(dts, '~operation_unwinder not found')
